@@ -286,10 +286,11 @@ def num_region(flags) -> str | None:
     return None
 
 
-def stage_numbers(chk, n):
+def stage_numbers(chk, n, extra=()):
     rng = chk.rng
     corpus = [json.loads(p.read_text()) for p in sorted((core.VERIF / "corpus" / "C03").glob("num_*.json"))]
-    schemas = corpus + [gen_num_schema(rng) if i % 4 else gen_signed_multiple_schema(rng) for i in range(n)]
+    # extra: the 54-64 bit bounds of big_schemas (magnitude is a dimension of its own: see stage_magnitude)
+    schemas = corpus + list(extra) + [gen_num_schema(rng) if i % 4 else gen_signed_multiple_schema(rng) for i in range(n)]
     oks = [draw_ok(s) for s in schemas]
     exprs = [
         f"(positive_number_plan {c_num_schema(s)} {cbool(ok)}, negative_numbers {c_keys(s)} [], "
@@ -311,6 +312,8 @@ def stage_numbers(chk, n):
         bounded = sum(k in s for k in ("minimum", "maximum", "exclusiveMinimum", "exclusiveMaximum"))
         chk.seen({"num": s}, bounded >= 1)
         chk.count(f"numeric:bounds={bounded}" + (":multipleOf" if "multipleOf" in s else ""))
+        if is_big(s):
+            chk.count("numeric:magnitude>=2**53" + (":multipleOf" if "multipleOf" in s else ""))
         upper = s.get("maximum", s.get("exclusiveMaximum"))
         if "multipleOf" in s and isinstance(upper, int) and not isinstance(upper, bool) and upper < 0 and s["multipleOf"] > 0:
             chk.count("numeric:negative-upper-bound+multipleOf" + (":exact-multiple" if upper % s["multipleOf"] == 0 else ":not-a-multiple"))
@@ -347,7 +350,7 @@ def stage_numbers(chk, n):
                 chk.fail("value labelled negative conforms to its schema", {"schema": s, "value": value, "description": d, "at": key}, region=None)
     if stats_legacy:
         chk.notes.append(f"{len(stats_legacy)} schemas are planned exactly as by the planner before the repair 0b606a31 (fixed finding C03-F1 is back?), e.g. {stats_legacy[0]}")
-    chk.stages["correspondence_numbers"] = {"schemas": len(schemas), "corpus": len(corpus), "agree": agree, "rejected_by_foreign_generator": rejected, "values_validated": checked_values}
+    chk.stages["correspondence_numbers"] = {"schemas": len(schemas), "corpus": len(corpus), "big_magnitude": len(extra), "agree": agree, "rejected_by_foreign_generator": rejected, "values_validated": checked_values}
 
 
 def gen_numeric_branch(rng, dialect):
@@ -2340,6 +2343,134 @@ def stage_tie_oracle(chk, max_inputs=24, max_schemas=700):
 
 
 # ----------------------------------------------------------------------------------------
+# magnitude: bounds and steps of 54-64 bits, where binary64 arithmetic is no longer exact integer arithmetic
+# ----------------------------------------------------------------------------------------
+ANCHORS = [2**53, 2**63, 10**18, 10**19, 2**64, 2**62]
+OFFSETS = [-2, -1, 0, 1, 2, 3, 5]
+BIG_STEPS = [1, 3, 10, 2**20]
+BIG_SHAPES = ["min", "max", "both", "exmin", "exmax", "exboth"]
+
+
+def is_big(s) -> bool:
+    return any(isinstance(s.get(k), int) and not isinstance(s.get(k), bool) and abs(s[k]) >= 2**53 for k in ("minimum", "maximum", "exclusiveMinimum", "exclusiveMaximum", "multipleOf"))
+
+
+def big_schema(anchor, sign, off, step, shape, ty="integer", width=None):
+    v = sign * anchor + off
+    w = width if width is not None else 3 * (step or 1) + 1
+    items = {
+        "min": [("minimum", v)],
+        "max": [("maximum", v)],
+        "both": [("minimum", v), ("maximum", v + w)],
+        "exmin": [("exclusiveMinimum", v)],
+        "exmax": [("exclusiveMaximum", v)],
+        "exboth": [("exclusiveMinimum", v), ("exclusiveMaximum", v + w + 2)],
+    }[shape]
+    if step is not None:
+        items.append(("multipleOf", step))
+    return {"type": ty, **dict(items)}
+
+
+def big_schemas(rng, n):
+    """Always: a lower bound at anchor + 1 / anchor - 1 (both signs) with every step; then n random points of the grid
+    anchors x signs x offsets x steps (incl. none and big steps) x shapes x widths, some with shuffled key order / type number."""
+    out = [big_schema(a, sg, off, st, "min") for a in ANCHORS for sg in (1, -1) for off in (1, -1) for st in BIG_STEPS]
+    for _ in range(n):
+        st = rng.choice(BIG_STEPS + [None, 7, 2**53 + 2, 10**18])
+        s = big_schema(
+            rng.choice(ANCHORS), rng.choice([1, -1]), rng.choice(OFFSETS), st, rng.choice(BIG_SHAPES),
+            ty=rng.choice(["integer", "integer", "integer", "number"]), width=rng.choice([None, None, 0, 1, st or 2, 2**40, 2**64]),
+        )
+        if rng.random() < 0.3:
+            keys = list(s.items())
+            rng.shuffle(keys)
+            s = dict(keys)
+        out.append(s)
+    return out
+
+
+def stage_magnitude(chk, thorough=False):
+    """(a) the integer kernel closest_multiple_greater_than called directly, against the model (independent of the translator) and the
+    sentinel closest_multiple_float53, on 54-64 bit arguments; (b) value level: big schemas nested in objects/arrays (judge);
+    (c) case level: big schemas as JSON bodies and as query/header/cookie parameters, against their declared schemas.
+    All comparisons on Python ints (python-jsonschema on ints is exact)."""
+    coverage, _ = _cov()
+    rng = chk.rng
+    stats = {"kernel_arguments": 0, "kernel_agree": 0, "kernel_like_float53": 0, "schemas": 0, "values_validated": 0, "operations": 0, "cases_judged": 0, "mislabelled": 0, "pointed_parts_validated": 0}
+    # (a) kernel
+    args = [(sg * a + off, x) for a in ANCHORS for sg in (1, -1) for off in OFFSETS for x in BIG_STEPS]
+    args += [(rng.choice([1, -1]) * rng.choice(ANCHORS) + rng.randrange(-1000, 1000), rng.choice([2, 7, 2**32 + 1, 2**53 + 2, 10**18, 10**19 + 3, rng.randrange(1, 2**40)])) for _ in range(300 if thorough else 60)]
+    args += [(y, x) for y in (-7, -1, 0, 1, 9, 2**52 + 1) for x in (1, 3, 10, 2**20)]
+    model = core.coq_eval(IMPORTS, [f"(closest_multiple_greater_than {cZ(y)} {cZ(x)}, closest_multiple_float53 {cZ(y)} {cZ(x)})" for y, x in args])
+    for (y, x), (m, f53) in zip(args, model):
+        try:
+            r = coverage.closest_multiple_greater_than(y, x)
+            r = r if isinstance(r, int) and not isinstance(r, bool) else repr(r)
+        except Exception as exc:  # noqa: BLE001
+            r = "raises " + type(exc).__name__
+        stats["kernel_arguments"] += 1
+        chk.seen({"kernel": [y, x]}, abs(y) >= 2**53)
+        chk.count("kernel:closest_multiple:" + ("magnitude>=2**53" if abs(y) >= 2**53 or x >= 2**53 else "small"))
+        if r == m:
+            stats["kernel_agree"] += 1
+        else:
+            if r == f53:
+                stats["kernel_like_float53"] += 1
+            schema = {"type": "integer", "minimum": y, "multipleOf": x}
+            tie_broken(chk, "closest_multiple_greater_than(minimum, multipleOf) called directly vs the model kernel", {"minimum": y, "multipleOf": x}, r, m, [schema])
+    if stats["kernel_like_float53"]:
+        chk.notes.append(
+            f"{stats['kernel_like_float53']} (minimum, multipleOf) arguments are rounded up exactly as by closest_multiple_float53 (the sentinel of "
+            "C03_closest_multiple_float53_refuted: the kernel through binary64 true division, x * ceil(y / x))"
+        )
+    # (b) value level, nested
+    picks = big_schemas(rng, 40 if thorough else 10)
+    if not thorough:
+        picks = picks[:: 4] + picks[-10:]
+    items = []
+    for i, s in enumerate(picks):
+        for w in ("optional-property", "required-property", "items") if thorough else (("optional-property", "required-property", "items")[i % 3],):
+            stats["schemas"] += 1
+            chk.seen({"big-nested": [w, s]}, True)
+            items += values_of(wrap_schema(w, s), ("PN",) if not thorough else ("P", "N", "PN"), f"54-64 bit bounds ({w})")
+    # (c) case level
+    with deterministic_draws():
+        for i, s in enumerate(picks):
+            exclusive = any(k in s for k in ("exclusiveMinimum", "exclusiveMaximum"))
+            version = "3.1.0" if exclusive else "3.0.2"
+            modes = ("P", "N", "PN")[i % 3]
+            if i % 2 == 0:
+                desc = {"params": [], "bodies": [["application/json", s]], "method": "post", "other_methods": [], "modes": "P" if modes == "PN" else modes, "openapi": version}
+                stats["operations"] += 1
+                items += case_items(desc, "coverage case whose body has 54-64 bit bounds")
+            loc = ("query", "header", "cookie", "query")[i % 4]
+            if not satisfiable({**s, "type": "integer"}):
+                # an empty range (listed finding F3): judge attributes it through the model; the parameter-level oracle has no regions
+                chk.count("magnitude:operation-skipped:empty-range")
+                continue
+            desc = {
+                "params": [
+                    {"name": "start", "in": loc, "required": i % 3 != 1, "schema": s},
+                    {"name": "n", "in": "query", "required": i % 2 == 1, "schema": {"type": "integer", "minimum": 1, "maximum": 3}},
+                ],
+                "bodies": [], "method": "get", "other_methods": [], "modes": modes, "openapi": version,
+            }
+            try:
+                operation = build_operation(desc)
+                declared = declared_parameters(operation)
+                cases, end, _ = observed_cases(operation, desc)
+            except Exception as exc:  # noqa: BLE001
+                chk.count(f"magnitude:operation-rejected:{type(exc).__name__}")
+                continue
+            stats["operations"] += 1
+            chk.seen({"big-operation": desc}, len(cases) >= 3)
+            chk.count(f"magnitude:operation:{loc}:modes={modes}" + ("" if end == "Completed" else ":" + end))
+            shared_case_oracle(chk, desc, declared, cases, stats)
+    stats["mislabelled"] += judge(chk, items, stats)
+    chk.stages["magnitude_54_to_64_bit_bounds"] = stats
+
+
+# ----------------------------------------------------------------------------------------
 # listed findings
 # ----------------------------------------------------------------------------------------
 def witness_fails(w) -> bool:
@@ -2393,6 +2524,9 @@ def run(chk: core.Check):
         "2-3 of query/header/cookie (sometimes also path) with pairwise DIFFERENT schemas (integer bounds, types, enums, required here and optional there) "
         "and a required/optional mix with 0, 1 or several optional parameters at every location (corpus shared_*.json + random); a systematic grid of the four bounded keyword pairs x zero/equal bound combinations x nestings; "
         "anyOf/oneOf over integer branches under positive and negative generation; "
+        "MAGNITUDE: integer/number schemas whose minimum/maximum/exclusive bounds sit at +-(2**53, 2**62, 2**63, 2**64, 10**18, 10**19) + (-2..5) with multipleOf "
+        "absent, 1, 3, 10, 2**20, 7 or itself above 2**53 (one-/two-sided, widths 0..2**64) in the numeric correspondence, nested in objects/arrays, as JSON bodies and "
+        "as query/header/cookie parameters; the kernel closest_multiple_greater_than called directly on such arguments against the model; "
         "type keywords as strings and as LISTS: all 128 sets of the seven type names (shuffled), one-element lists, repetitions, unknown names against "
         "negative_type_plan; schemas with a list-valued type (nullable integer/number/string/boolean/array/object, mixed scalars, with and without bounds that "
         "admit 0) at top level, as optional/required property and as array items under N, PN (and P), and as JSON bodies of single-mode OpenAPI 3.1 operations; "
@@ -2400,7 +2534,8 @@ def run(chk: core.Check):
     )
     chk.proofs(["Common", "C03"])
     k = 10 if chk.broken else 1  # a broken proof obligation: search ten times harder for a concrete failing input
-    stage_numbers(chk, 2000 if quick else 24000)
+    stage_numbers(chk, 2000 if quick else 24000, extra=big_schemas(chk.rng, 250 if quick else 3000))
+    stage_magnitude(chk, thorough=not quick)
     stage_anyof(chk, 150 if quick else 2000)
     stage_objects(chk, 90 if quick else 1200)
     stage_lengths(chk, 400 if quick else 5000)
